@@ -5,7 +5,6 @@ import (
 	"sort"
 	"strings"
 	"testing"
-	"testing/synctest"
 )
 
 // ForkStep selects, for a replay, which crash image of a finished run is
@@ -113,7 +112,7 @@ func forkFromImages(r *Run, res *Result, ims []Image, rng *RNG) {
 					}
 				}
 			}()
-			synctest.Test(curT, func(t *testing.T) { child.Execute() })
+			runBubble(curT, child)
 		}()
 		forks++
 		res.Stats.Windows += child.stats.Windows
